@@ -341,7 +341,6 @@ Section BBox.
   Proof. unfold nmax; rops. destruct (Rleb_spec a b); lra. Qed.
   Lemma nmax_ge_r a b : b <= nmax ROps a b.
   Proof. unfold nmax; rops. destruct (Rleb_spec a b); lra. Qed.
-  Definition vle (a b : vec3 R) : Prop := vx a <= vx b /\ vy a <= vy b /\ vz a <= vz b.
   Lemma spec_min_lower r : forall x y, In y (x :: r) -> vle (spec_min ROps x r) y.
   Proof.
     induction r as [|z r IH]; intros x y Hin; cbn [spec_min].
@@ -623,14 +622,14 @@ Lemma undefined_operations_raise (p : polyline R) k bps s t v :
   (pclosed p = false -> c_rolled p k = Raise ValueError) /\
   (pclosed p = true -> c_sectioned p bps = Raise NotImplementedError /\ c_aligned ROps p v = Raise ValueError) /\
   (pclosed p = false -> (t <= s)%nat -> c_sliced p s t = Raise ValueError) /\
-  c_join (F:=R) [] true = Raise ValueError /\ c_join [p; MkPolyline (pv p) true] false = Raise ValueError.
+  (forall (ps : list (polyline R)) c, ps = [] \/ existsb pclosed ps = true -> c_join ps c = Raise ValueError).
 Proof.
   unfold c_rolled, c_sectioned, c_aligned, c_sliced, c_join. repeat split.
   - intros ->. reflexivity.
   - rewrite H. reflexivity.
   - rewrite H. reflexivity.
   - intros -> H. apply Nat.leb_le in H. rewrite H. reflexivity.
-  - cbn. rewrite orb_true_r. reflexivity.
+  - intros ps c [->|H]; [reflexivity|]. rewrite H. destruct (length ps =? 0)%nat; reflexivity.
 Qed.
 
 Lemma code_errors_leave_unchanged (pl : list (polyline R)) o e :
